@@ -34,6 +34,32 @@ def model_terms(rep: Report, wd, depth: int):
     return [[f"{i}", t] for i, t in enumerate(terms)]
 
 
+def model_shapes(rep: Report, wd):
+    """the document shapes of MC_Doc: [[id, abstract CodeData]]"""
+    cfg = wd / "MC_Doc.cfg"
+    cfg.write_text("SPECIFICATION Spec\nCONSTANTS\n  Emit = TRUE\nINVARIANT DocModel\n")
+    r = run_tlc("MC_Doc", str(cfg), workers=8, timeout=1800, extra=["-continue"])
+    rep.add_tlc(r, "MC_Doc")
+    if r.violated:
+        rep.cov["model_invariant_violations"] = rep.cov.get("model_invariant_violations", 0) + len(r.violated)
+    shapes = [json.loads(tla_unescape(s)) for s in tlc_prints(r.out)]
+    if not shapes:
+        rep.machinery_error(f"MC_Doc emitted nothing: {r.out[-400:]}")
+    shapes.sort(key=lambda d: (d["focus"], d["ix"]))
+    return [[d["focus"] + "-" + ".".join(map(str, d["ix"])), d["abs"]] for d in shapes]
+
+
+def shape_jobs(shapes, wd, v, files, start):
+    jobs = []
+    k = start
+    for ch in chunks(shapes, 120):
+        k += 1
+        f = str(wd / f"shapes-{v}-{k}.ndjson")
+        files.append(f)
+        jobs.append(("jsonw.shapes_to_file", {"shapes": ch, "path": f}))
+    return jobs
+
+
 def vt_pass(files):
     def one(f):
         p = subprocess.run(["python3-vt", str(HARNESS / "vt_schema.py"), f], capture_output=True, text=True)
@@ -54,12 +80,18 @@ def run(tier: str, rep: Report):
         "'identical code' along the JSON route identifies all NaNs, as the property says",
     ]
     terms = model_terms(rep, wd, 1 if tier == "quick" else 2)
+    shapes = model_shapes(rep, wd)
+    if tier == "quick":
+        # every instruction shape, every 3rd of the others (C12 and C15 replay them too)
+        shapes = [s for i, s in enumerate(shapes) if s[0].startswith("instr") or i % 3 == 0]
+    rep.cov["document_shapes"] = len(shapes)
     pool = Pool(SUPPORTED, per_version=4)
     files = []
     try:
         jobs = {v: [] for v in SUPPORTED}
         k = 0
         for v in SUPPORTED:
+            jobs[v] += shape_jobs(shapes, wd, v, files, 100000)
             for ch in chunks(terms, 60):
                 k += 1
                 f = str(wd / f"terms-{v}-{k}.ndjson")
@@ -93,7 +125,8 @@ def run(tier: str, rep: Report):
     finally:
         pool.close()
     vt_pass(files)
-    nev = sum((x if isinstance(x, int) else x.get("events", 0)) for o in outs for x in o)
+    nev = sum((x if isinstance(x, int) else x[0] if isinstance(x, list) else x.get("events", 0)) for o in outs for x in o)
+    rep.cov["document_shapes_decodable"] = sum(x[1] for o in outs for x in o if isinstance(x, list))
     rep.cov["evaluations"] = nev
     rep.cov["distinct_nontrivial"] = sum(1 for _, t in terms if t[0] != "atom")
     rep.cov["rule"] = ("cases = (interpreter, term, position) and (interpreter, corpus code object, decoded|normalised) documents; "
@@ -113,7 +146,7 @@ def run(tier: str, rep: Report):
         return f"{PID}/{'+'.join(sorted(set(c.split('.', 1)[1] for c in clauses)))}/{parts[0]}/{where}"
 
     def corrupt(e):
-        if e.get("kind") != "doc" or e.get("broken") or e.get("to_exc") or e["tree"][0] != "o":
+        if e.get("kind") != "doc" or e.get("broken") or e.get("to_exc") or e["tree"][0] != "o" or e.get("has_abs"):
             return None
         e["tree"][1].append(["leak", ["x", "tuple"]])      # a non-JSON value inside the document
         return e
